@@ -17,6 +17,9 @@ the calibration run, that asks the generator for anything but normals, or that r
 generator stack, raises :class:`TapeError` -- a harness error (exit 2), never a violation.
 What the tape cannot see: code that creates a private ``numpy.random`` generator.  Such code makes
 the draws irreproducible, which the repeated calibration run detects (``not reproducible``).
+
+Scope: nifty.cl only (used by C13).  The JAX side mentioned in DESIGN 1.8 (``random_like`` in
+nifty.re.evi) draws from explicit PRNG keys and needs no global interception; it is not handled here.
 """
 import numpy as np
 
